@@ -193,6 +193,11 @@ def cutAtCp (i : Nat) : List Mark → Option (List KV × List Mark)
     else if cpCount r = i then some (m.saved, m :: r)
     else cutAtCp i r
 
+/-- `n` times `dropFirstStage` -/
+def dropStages : Nat → List Mark → List Mark
+  | 0, ms => ms
+  | n + 1, ms => dropStages n (dropFirstStage ms)
+
 /-- publish the innermost level: the writes stay, the undo boundary goes -/
 def Buf.releaseTop (b : Buf) : Buf := ⟨b.cur, dropFirstStage b.marks⟩
 
